@@ -274,6 +274,43 @@ def run_mark_text(res, prep, tier, text):
     return found
 
 
+def run_rank_worlds(res, prep, tier):
+    """The documented ROW ORDER when the metadata carries MPI ranks: looms by their lowest rank,
+    processes by rank, threads by tid, CPUs by physical id (worlds of the C15 generator: several
+    looms, several processes per loom whose pid order differs from their rank order).  The files of
+    the real ovniemu go through the C13 self-check with the expected row names.  (Seeded C13-7: the
+    loom's rank_min was taken from its first process.)"""
+    import c15
+    from ovnitrace import Scratch
+    r = vcommon.rng("c13-rank-worlds")
+    found = False
+    n = 60 if tier == "quick" else 800
+    with Scratch("c13-rows") as d:
+        for i in range(n):
+            world = c15.gen_world(r, None)
+            specs = c15.variant(r, world, "all", "all")
+            case = c15.Case("w%d" % i, "variant:all/all", specs, None, "ok", world)
+            sub = os.path.join(d, "w%d" % i)
+            os.makedirs(sub)
+            out = c15.run_impl(prep.bdir, sub, case)
+            ranked = all(p["rank"] is not None for l in world["looms"] for p in l["procs"])
+            res.dist("rank-worlds:" + ("ranked" if ranked else "unranked") + ":" + out["verdict"])
+            res.case("rank-world " + case.replay()[:400], nontrivial=out["verdict"] == "ok")
+            if out["verdict"] != "ok":
+                continue        # refusing a distribution is C15's subject
+            et, ec = c15.expected_rows(world, specs)
+            probs = emu_lib.pv_selfcheck(os.path.join(sub, "t"), {"thread": et, "cpu": ec})
+            if probs:
+                found = True
+                res.violation("c13:rank-rows:" + probs[0][:50].replace(" ", "_"),
+                              "Paraver files of a trace with MPI ranks violate C13: " + "; ".join(probs[:3]),
+                              "# C15 replay format (checks/check.py C15 --replay)\n" + case.replay()
+                              + "# " + "\n# ".join(probs[:5]) + "\n")
+            import shutil
+            shutil.rmtree(sub, ignore_errors=True)
+    return found
+
+
 def check(res, tier, replay=None):
     res.cov["rule"] = ("accepted (and rejected) traces over all table-driven models, 1-2 looms, several processes/threads/CPUs "
                        "(8% wide hierarchies: 3-4 looms, 9-12 threads, up to 11 CPUs with sparse ids), from the mixed history "
@@ -321,6 +358,7 @@ def check(res, tier, replay=None):
         found = c04.run_cases(res, prep, cases, "c13", None, post=post)
         found = run_mark_text(res, prep, tier, text) or found
         found = run_extra(res, prep, tabs, tier, text) or found
+        found = run_rank_worlds(res, prep, tier) or found
         res.cov["accepted_traces_checked"] = res.cov["distribution"].get("ovniemu:ok", 0)
         res.cov["text_tie"] = dict(text.stats, traces_by_group=text.by_group)
         for b in res.cov.get("correspondence_breaks", [])[:3]:
